@@ -1,15 +1,209 @@
 /-
-C50 — Character sets and tokenizers follow set semantics (first version; the tokenizer theorems follow).
+C50 — Character sets and tokenizers follow set semantics.
+
+Property theorems only. Models: `Base/CharSet.lean` + `Base/CharSetOps.lean` (CharacterSet as a 256-bit mask, used by every
+parser model), `CharacterSet/Slots.lean` (the C++ loops over the 256-cell vector), `Base/Tok.lean` (Parser::Tokenizer).
+A set of byte values is identified with its membership predicate `UInt8 → Bool`; "behaves as the set operation" is
+pointwise equality of membership, and sets with the same members are equal (`operator==`).
+All statements hold for every set, every buffer and every limit (including 0 and npos); the trailing tokenizer
+operations assume `buffer length < npos`, which SBuf guarantees (`maxSize < npos`, `sbuf_bound`).
 -/
 import SquidModel.Base.CharSetOps
-import SquidModel.Base.Tok
+import SquidModel.Base.TokLemmas
+import SquidModel.CharacterSet.SlotsLemmas
+import SquidModel.Gen.CharSets
+import SquidModel.Gen.TokConsts
 
 namespace SquidModel.C50
-open SquidModel CharSet
+open SquidModel CharSet Tok CharacterSet
 
-/-- union, difference and complement are the pointwise Boolean operations on membership -/
+/-! ### A. character sets (mask model) -/
+
+/-- `operator+` is union -/
 theorem union_is_set_union (a b : CharSet) (x : UInt8) : (a + b).mem x = (a.mem x || b.mem x) := mem_union a b x
+/-- `operator-` is difference -/
 theorem diff_is_set_difference (a b : CharSet) (x : UInt8) : (a - b).mem x = (a.mem x && !b.mem x) := mem_diff a b x
+/-- `complement()` is complement with respect to all 256 octets -/
 theorem complement_is_set_complement (a : CharSet) (x : UInt8) : a.complement.mem x = !a.mem x := mem_complement a x
+/-- `add(c)` inserts one octet -/
+theorem add_is_insert (a : CharSet) (c x : UInt8) : (a.add c).mem x = (a.mem x || x == c) := mem_add a c x
+/-- `remove(c)` deletes one octet -/
+theorem remove_is_erase (a : CharSet) (c x : UInt8) : (a.remove c).mem x = (a.mem x && x != c) := mem_remove a c x
+/-- `addRange(low, high)` with `low ≤ high` adds the closed interval -/
+theorem addRange_is_interval (a : CharSet) {lo hi : UInt8} (h : lo ≤ hi) (x : UInt8) :
+    (a.addRange lo hi).mem x = (a.mem x || (decide (lo ≤ x) && decide (x ≤ hi))) := mem_addRange_of_le a h x
+/-- … and for any arguments it adds `[low, high)` and `high` (so a reversed range adds just `high`) -/
+theorem addRange_general (a : CharSet) (lo hi x : UInt8) :
+    (a.addRange lo hi).mem x = (a.mem x || (decide (lo ≤ x) && decide (x < hi)) || x == hi) := mem_addRange a lo hi x
+/-- the C-string constructor collects the bytes before the first NUL -/
+theorem cstring_ctor_members (l : Bytes) (x : UInt8) : (ofCString l).mem x = (l.takeWhile (· != 0)).contains x :=
+  mem_ofCString l x
+/-- the member list printed by the line protocol is the member set -/
+theorem members_iff (c : CharSet) (x : UInt8) : x ∈ c.members ↔ c.mem x = true := mem_members c x
+
+/-- a set is determined by its members … -/
+theorem set_extensionality {a b : CharSet} (ha : WF a) (hb : WF b) (h : ∀ x, a.mem x = b.mem x) : a = b := ext ha hb h
+/-- … so `operator==` is equality of member sets -/
+theorem eq_operator_is_set_equality {a b : CharSet} (ha : WF a) (hb : WF b) :
+    a.beq b = true ↔ ∀ x, a.mem x = b.mem x := beq_iff ha hb
+/-- every constructor and operation yields a well-formed set (only the 256 low bits) -/
+theorem operations_well_formed {a b : CharSet} (ha : WF a) (hb : WF b) (c lo hi : UInt8) (l : Bytes) (rs : List (UInt8 × UInt8)) :
+    WF (a + b) ∧ WF (a - b) ∧ WF a.complement ∧ WF (a.add c) ∧ WF (a.remove c) ∧ WF (a.addRange lo hi) ∧
+    WF (ofCString l) ∧ WF (ofRanges rs) ∧ WF CharSet.empty :=
+  ⟨WF_union ha hb, WF_diff b ha, WF_complement ha, WF_add c ha, WF_remove c ha, WF_addRange lo hi ha,
+   WF_ofCString l, WF_ofRanges rs, WF_empty⟩
+
+/-- the dumped public constants are well formed (regenerated every run) -/
+theorem constants_well_formed :
+    WF Gen.CharSets.ALPHA ∧ WF Gen.CharSets.DIGIT ∧ WF Gen.CharSets.HEXDIG ∧ WF Gen.CharSets.TCHAR ∧ WF Gen.CharSets.WSP ∧
+    WF Gen.CharSets.VCHAR ∧ WF Gen.CharSets.OBSTEXT ∧ WF Gen.CharSets.QDTEXT ∧ WF Gen.CharSets.CTEXT ∧ WF Gen.CharSets.CTL := by
+  unfold WF; decide
+
+/-! ### B. character sets (the C++ loops over 256 cells) -/
+
+/-- the `+=` loop is union, the `-=` loop is difference, `std::transform(logical_not)` is complement -/
+theorem slots_union (d s : Slots) (hd : d.length = 256) (hs : s.length = 256) (c : UInt8) :
+    memS (addAssign d s) c = (memS d c || memS s c) := memS_addAssign d s hd hs c
+theorem slots_difference (d s : Slots) (hd : d.length = 256) (hs : s.length = 256) (c : UInt8) :
+    memS (subAssign d s) c = (memS d c && !memS s c) := memS_subAssign d s hd hs c
+theorem slots_complement (s : Slots) (h : s.length = 256) (c : UInt8) : memS (complementS s) c = !memS s c :=
+  memS_complementS s h c
+theorem slots_addRange (s : Slots) (h : s.length = 256) (lo hi c : UInt8) :
+    memS (addRangeS s lo hi) c = (memS s c || (decide (lo ≤ c) && decide (c < hi)) || c == hi) := memS_addRangeS s h lo hi c
+/-- `chars_ == cs.chars_` on cells that are 0 or 1 is equality of member sets -/
+theorem slots_eq_operator {a b : Slots} (ha : Canon a) (hb : Canon b) : eqS a b = true ↔ ∀ c, memS a c = memS b c :=
+  eqS_iff ha hb
+/-- the 0/1 invariant is established by the constructors and preserved by every operation -/
+theorem slots_invariant {d s : Slots} (hd : Canon d) (hs : Canon s) (b : UInt8) :
+    Canon blank ∧ Canon (addS d b) ∧ Canon (removeS d b) ∧ Canon (addAssign d s) ∧ Canon (subAssign d s) ∧ Canon (complementS d) :=
+  ⟨Canon_blank, Canon_addS hd b, Canon_removeS hd b, Canon_addAssign hd hs, Canon_subAssign hd hs, Canon_complementS hd.1⟩
+
+/-- **Refinement**: the abstraction `abs` (cell ≠ 0 ↦ bit) maps the slot-level operations to the mask operations
+that all parser models use. -/
+theorem slots_refine_mask (d s : Slots) (hd : d.length = 256) (hs : s.length = 256) (b lo hi : UInt8) (l : Bytes)
+    (rs : List (UInt8 × UInt8)) :
+    abs (addAssign d s) = abs d + abs s ∧ abs (subAssign d s) = abs d - abs s ∧
+    abs (complementS d) = (abs d).complement ∧ abs (addS d b) = (abs d).add b ∧ abs (removeS d b) = (abs d).remove b ∧
+    abs (addRangeS d lo hi) = (abs d).addRange lo hi ∧ abs (ofCStringS l) = ofCString l ∧ abs (ofRangesS rs) = ofRanges rs ∧
+    abs blank = CharSet.empty ∧ (∀ c, (abs d).mem c = memS d c) :=
+  ⟨abs_addAssign d s hd hs, abs_subAssign d s hd hs, abs_complementS d hd, abs_addS d hd b, abs_removeS d hd b,
+   abs_addRangeS d hd lo hi, abs_ofCStringS l, abs_ofRangesS rs, abs_blank, mem_abs d⟩
+
+/-! ### C. tokenizer -/
+
+/-- SBuf keeps every buffer below `npos` (`maxSize < npos`), with the constants of the staged tree -/
+theorem sbuf_bound : Tok.npos = Gen.TokConsts.npos ∧ Tok.maxSize = Gen.TokConsts.maxSize ∧ Tok.maxSize < Tok.npos := by decide
+
+/-- **prefix**: on success `token ++ remaining = buffer`, the token is non-empty, consists of members, is no longer than
+the limited region (`takeLim limit buffer`: the whole buffer for `npos`, else the first `min limit length` bytes) and is maximal:
+it fills the region or is followed by a non-member; `parsedSize` grows by its length. -/
+theorem prefix_consumes_maximal_run {t : Tok} {cs : CharSet} {limit : Nat} {r : Bytes} {t' : Tok}
+    (h : prefixOf t cs limit = some (r, t')) :
+    r ++ t'.buf = t.buf ∧ r ≠ [] ∧ (∀ b ∈ r, cs.mem b = true) ∧ t'.parsed = t.parsed + r.length ∧
+    r.length ≤ (takeLim limit t.buf).length ∧
+    (r.length = (takeLim limit t.buf).length ∨ ∃ b rest, t'.buf = b :: rest ∧ cs.mem b = false) := prefixOf_some h
+
+/-- **prefix** fails (tokenizer unchanged) exactly when the limited region is empty — empty buffer or limit 0 — or starts
+with a non-member -/
+theorem prefix_fails_iff (t : Tok) (cs : CharSet) (limit : Nat) :
+    prefixOf t cs limit = none ↔
+      (takeLim limit t.buf = [] ∨ ∃ b rest, takeLim limit t.buf = b :: rest ∧ cs.mem b = false) := prefixOf_none_iff t cs limit
+
+/-- the limited region has the length the limit says: everything for npos, `min limit length` otherwise -/
+theorem limit_region_length (n : Nat) (l : Bytes) :
+    (takeLim n l).length = if n = npos then l.length else min n l.length := takeLim_length n l
+
+/-- a limit not smaller than the buffer is no limit -/
+theorem prefix_large_limit {t : Tok} {limit : Nat} (cs : CharSet) (h : t.buf.length ≤ limit) :
+    prefixOf t cs limit = prefixOf t cs npos := prefixOf_of_le cs h
+
+/-- **suffix**: on success `remaining ++ token = buffer`, non-empty, members only, at most `min limit length` long,
+maximal (fills that region or is preceded by a non-member); `parsedSize` grows by its length -/
+theorem suffix_consumes_maximal_run {t : Tok} {cs : CharSet} {limit : Nat} {r : Bytes} {t' : Tok} (hlen : t.buf.length < npos)
+    (h : suffixOf t cs limit = some (r, t')) :
+    t'.buf ++ r = t.buf ∧ r ≠ [] ∧ (∀ b ∈ r, cs.mem b = true) ∧ t'.parsed = t.parsed + r.length ∧
+    r.length ≤ min limit t.buf.length ∧
+    (r.length = min limit t.buf.length ∨ ∃ pre b, t'.buf = pre ++ [b] ∧ cs.mem b = false) := suffixOf_some hlen h
+
+/-- **suffix** fails exactly when the region (the last `min limit length` bytes, here reversed) is empty or ends with a non-member -/
+theorem suffix_fails_iff (t : Tok) (cs : CharSet) (limit : Nat) (hlen : t.buf.length < npos) :
+    suffixOf t cs limit = none ↔
+      (revRegion limit t.buf = [] ∨ ∃ b rest, revRegion limit t.buf = b :: rest ∧ cs.mem b = false) :=
+  suffixOf_none_iff t cs limit hlen
+
+/-- **skipAll** removes exactly the maximal leading run of members, returns its length and adds it to `parsedSize` -/
+theorem skipAll_consumes_maximal_run (t : Tok) (cs : CharSet) :
+    ∃ skipped, skipped ++ (skipAll t cs).2.buf = t.buf ∧ (∀ b ∈ skipped, cs.mem b = true) ∧
+      (skipAll t cs).1 = skipped.length ∧ (skipAll t cs).2.parsed = t.parsed + skipped.length ∧
+      ((skipAll t cs).2.buf = [] ∨ ∃ b rest, (skipAll t cs).2.buf = b :: rest ∧ cs.mem b = false) := skipAll_span t cs
+
+/-- **skipAllTrailing** removes exactly the maximal trailing run of members -/
+theorem skipAllTrailing_consumes_maximal_run (t : Tok) (cs : CharSet) (hlen : t.buf.length < npos) :
+    ∃ removed, (skipAllTrailing t cs).2.buf ++ removed = t.buf ∧ (∀ b ∈ removed, cs.mem b = true) ∧
+      (skipAllTrailing t cs).1 = removed.length ∧ (skipAllTrailing t cs).2.parsed = t.parsed + removed.length ∧
+      ((skipAllTrailing t cs).2.buf = [] ∨ ∃ pre b, (skipAllTrailing t cs).2.buf = pre ++ [b] ∧ cs.mem b = false) :=
+  skipAllTrailing_span t cs hlen
+
+/-- **token**: on success the buffer is `delimiters ++ token ++ delimiters ++ remaining` with a non-empty delimiter-free token,
+at least one trailing delimiter, all trailing delimiters consumed, and `parsedSize` advanced by all three parts -/
+theorem token_consumes_delimited_token {t : Tok} {d : CharSet} {tok : Bytes} {t' : Tok} (h : token t d = some (tok, t')) :
+    ∃ d1 d2, d1 ++ tok ++ d2 ++ t'.buf = t.buf ∧ (∀ b ∈ d1, d.mem b = true) ∧ tok ≠ [] ∧ (∀ b ∈ tok, d.mem b = false) ∧
+      d2 ≠ [] ∧ (∀ b ∈ d2, d.mem b = true) ∧ (t'.buf = [] ∨ ∃ b rest, t'.buf = b :: rest ∧ d.mem b = false) ∧
+      t'.parsed = t.parsed + d1.length + tok.length + d2.length := token_some h
+
+/-- **token** fails (and restores the tokenizer) exactly when no delimiter follows the leading delimiters -/
+theorem token_fails_iff (t : Tok) (d : CharSet) :
+    token t d = none ↔ ∀ b ∈ t.buf.dropWhile d.mem, d.mem b = false := token_none_iff t d
+
+/-- **skipOne / skip(char)** remove exactly the first byte when it qualifies -/
+theorem skipOne_spec (t : Tok) (cs : CharSet) :
+    skipOne t cs = match t.buf with
+      | b :: rest => if cs.mem b then some ⟨rest, t.parsed + 1⟩ else none
+      | [] => none := skipOne_eq t cs
+theorem skipChar_spec (t : Tok) (c : UInt8) :
+    skipChar t c = match t.buf with
+      | b :: rest => if b = c then some ⟨rest, t.parsed + 1⟩ else none
+      | [] => none := skipChar_eq t c
+/-- **skipOneTrailing** removes exactly the last byte when it is a member -/
+theorem skipOneTrailing_spec (t : Tok) (cs : CharSet) (hlen : t.buf.length < npos) :
+    skipOneTrailing t cs = match t.buf.getLast? with
+      | some b => if cs.mem b then some ⟨t.buf.dropLast, t.parsed + 1⟩ else none
+      | none => none := skipOneTrailing_eq t cs hlen
+
+/-- **skip(SBuf)** succeeds exactly on a non-empty literal prefix and removes exactly it -/
+theorem skip_literal_iff (t : Tok) (tok : Bytes) (t' : Tok) :
+    skip t tok = some t' ↔ tok ≠ [] ∧ tok ++ t'.buf = t.buf ∧ t'.parsed = t.parsed + tok.length := skip_some_iff t tok t'
+/-- **skipSuffix** succeeds exactly on a non-empty literal suffix and removes exactly it -/
+theorem skipSuffix_literal_iff (t : Tok) (tok : Bytes) (t' : Tok) (hlen : t.buf.length < npos) :
+    skipSuffix t tok = some t' ↔ tok ≠ [] ∧ t'.buf ++ tok = t.buf ∧ t'.parsed = t.parsed + tok.length :=
+  skipSuffix_some_iff t tok t' hlen
+/-- **skipRequired** returns exactly when the literal (possibly empty) is a prefix, having removed it; it reports
+InsufficientInput exactly when the buffer is a proper prefix of the literal -/
+theorem skipRequired_ok (t : Tok) (tok : Bytes) (t' : Tok) :
+    skipRequired t tok = .ok t' ↔ tok ++ t'.buf = t.buf ∧ t'.parsed = t.parsed + tok.length := skipRequired_ok_iff t tok t'
+theorem skipRequired_insufficient (t : Tok) (tok : Bytes) :
+    skipRequired t tok = .error .insufficient ↔ (tok ≠ [] ∧ ¬ tok <+: t.buf ∧ t.buf <+: tok) :=
+  skipRequired_insufficient_iff t tok
+/-- the throwing **prefix** returns exactly when `prefix` succeeds and input remains after the token -/
+theorem prefixThrow_ok (t : Tok) (cs : CharSet) (limit : Nat) (r : Bytes) (t' : Tok) :
+    prefixThrow t cs limit = .ok (r, t') ↔ prefixOf t cs limit = some (r, t') ∧ t'.buf ≠ [] := prefixThrow_ok_iff t cs limit r t'
+
+/-! ### non-vacuity -/
+
+-- "  ab c": skip blanks, take two letters with limit 2 while three would match, token up to the blank
+example : skipAll ⟨[32,32,97,98,99,32,100], 0⟩ (CharSet.ofBytes [32]) = (2, ⟨[97,98,99,32,100], 2⟩) := by decide
+example : prefixOf ⟨[97,98,99,32,100], 2⟩ Gen.CharSets.ALPHA 2 = some ([97,98], ⟨[99,32,100], 4⟩) := by decide
+example : prefixOf ⟨[97,98,99,32,100], 2⟩ Gen.CharSets.ALPHA 0 = none := by decide
+example : prefixOf ⟨[97,98,99,32,100], 2⟩ Gen.CharSets.ALPHA npos = some ([97,98,99], ⟨[32,100], 5⟩) := by decide
+example : prefixOf ⟨[32,100], 5⟩ Gen.CharSets.ALPHA npos = none := by decide
+example : token ⟨[32,97,98,32,32,99], 0⟩ Gen.CharSets.SP = some ([97,98], ⟨[99], 5⟩) := by decide
+example : token ⟨[32,97,98], 0⟩ Gen.CharSets.SP = none := by decide
+example : suffixOf ⟨[97,32,49,50,51], 0⟩ Gen.CharSets.DIGIT 2 = some ([50,51], ⟨[97,32,49], 2⟩) := by decide
+example : skipAllTrailing ⟨[97,13,10,13,10], 0⟩ (CharSet.ofBytes [13,10]) = (4, ⟨[97], 4⟩) := by decide
+example : (Gen.CharSets.ALPHA + Gen.CharSets.DIGIT).mem 55 = true ∧ (Gen.CharSets.ALPHA - Gen.CharSets.HEXDIG).mem 97 = false ∧
+    Gen.CharSets.ALPHA.complement.mem 97 = false ∧ Gen.CharSets.ALPHA.complement.mem 0 = true := by decide
+example : (CharSet.empty.addRange 57 48).members = [48] := by decide
+example : memS (addAssign (addS blank 65) (addS blank 66)) 66 = true ∧ memS (subAssign (addS blank 65) (addS blank 65)) 65 = false := by
+  decide
 
 end SquidModel.C50
